@@ -262,6 +262,9 @@ def compare(eng, op, a, b):
         return {'Lt': a < b, 'LtE': a <= b, 'Gt': a > b, 'GtE': a >= b}[op]
     if isinstance(a, tuple) and isinstance(b, tuple):
         return tuple_cmp(eng, op, a, b)
+    if type_of(a) == TChar or type_of(b) == TChar:
+        x, y = to_z3(a, TChar), to_z3(b, TChar)
+        return {'Lt': x < y, 'LtE': x <= y, 'Gt': x > y, 'GtE': x >= y}[op]
     if type_of(a) == TStr or type_of(b) == TStr:
         x, y = to_z3(a, TStr), to_z3(b, TStr)
         return {'Lt': x < y, 'LtE': x <= y, 'Gt': y < x, 'GtE': y <= x}[op]
@@ -300,6 +303,8 @@ def tuple_cmp(eng, op, a, b):
 def contains(eng, c, x):
     if isinstance(c, (tuple, list)):
         return eng.Or(*[eng.eq(x, e) for e in c])
+    if isinstance(c, str) and isinstance(x, SV) and x.ty == TChar:
+        return eng.Or(*[x.e == ord(ch) for ch in c])
     if isinstance(c, str):
         if isinstance(x, str):
             return x in c
@@ -313,6 +318,10 @@ def contains(eng, c, x):
         if src is not None:
             return contains(eng, src, x)
         raise EngineError('membership in iterator')
+    if isinstance(c, Box) and c.cd is not None:
+        if isinstance(x, SV):
+            return eng.Or(*[eng.eq(x, k) for k in c.cd])
+        return _cd_find(eng, c, x)[1]
     if isinstance(c, Box) and c.ty is None:
         return False
     ty = type_of(c)
@@ -386,10 +395,14 @@ def getattr_value(eng, v, attr):
 
 
 def value_kind(v):
+    if isinstance(v, Box) and v.ty == TCStr:
+        return 'cstr'
     if isinstance(v, Box):
         return v.kind
     if isinstance(v, SV):
         t = v.ty
+        if t == TCStr:
+            return 'cstr'
         if isinstance(t, TSeq):
             return 'list'
         if isinstance(t, TMap):
@@ -475,6 +488,14 @@ def getitem(eng, v, k):
         if k_ is not None and k_.lookup('__getitem__') is not None:
             return eng.call_closure(k_.lookup('__getitem__').bind(v), [k], {})
         raise EngineError('subscript of object %r' % v)
+    if isinstance(v, Box) and v.cd is not None:
+        if isinstance(k, SV):
+            return getitem(eng, dict(v.cd), k)     # symbolic key: ite chain over the entries, KeyError path otherwise
+        kk, found = _cd_find(eng, v, k)
+        if found:
+            return v.cd[kk]
+        eng.maybe_raise(False, 'KeyError')
+        raise EngineError('missing key in spec')
     if isinstance(v, Box) and v.ty is None:
         if v.kind == 'dict' and v.default is not None:
             dv = v.default(eng)
@@ -525,23 +546,44 @@ def getslice(eng, v, lo, hi, st):
     if n is None:
         raise EngineError('slice of %r' % (v,))
 
-    def clamp(x, default):
-        if x is None:
-            return default
-        xv = eng.num(x)
-        xv = _int(xv)
+    def raw(x, default):
+        return default if x is None else _int(eng.num(x))
+
+    def clamp(xv):
         xv = z3.If(xv < 0, xv + n, xv)
         return z3.If(xv < 0, 0, z3.If(xv > n, n, xv))
-    a = clamp(lo, z3.IntVal(0))
-    b = clamp(hi, n)
+    lo_raw, hi_raw = raw(lo, z3.IntVal(0)), raw(hi, n)
+    a, b = clamp(lo_raw), clamp(hi_raw)
     ln = z3.If(b > a, b - a, 0)
     if ty == TStr:
         return SV(TStr, z3.SubString(e, a, ln))
-    r = eng.fresh(ty, 'slice')
+    # a slice is a function of (sequence, start, stop) -- raw, unclamped arguments -- so that syntactically equal
+    # arguments give equal slices (congruence); its two defining facts are stated for this application
+    f = z3.Function('slice_' + ty.name, ty.sort(), z3.IntSort(), z3.IntSort(), ty.sort())
+    r = f(e, lo_raw, hi_raw)
     i = z3.FreshInt('si')
     eng.assume(ty.len(r) == ln)
-    eng.assume(z3.ForAll([i], z3.Implies(z3.And(0 <= i, i < ln), ty.at(r, i) == ty.at(e, a + i))))
-    return Box(ty, r)
+    eng.assume(forall_pat([i], z3.Implies(z3.And(0 <= i, i < ln), ty.at(r, i) == ty.at(e, a + i)), ty.at(r, i)))
+    return SV(ty, r) if ty == TCStr else Box(ty, r)
+
+
+def _is_conc_key(k):
+    if isinstance(k, (str, int)) or k is None:
+        return True
+    if isinstance(k, tuple):
+        return all(_is_conc_key(x) for x in k)
+    return False
+
+
+def _cd_find(eng, box, k):
+    """key of box.cd equal to k, or None; symbolic keys into a concrete dict are out of reach."""
+    for kk in box.cd:
+        r = eng.eq(kk, k)
+        if r is True:
+            return kk, True
+        if r is not False:
+            raise EngineError('symbolic key into a concrete-key dict')
+    return None, False
 
 
 def _type_box_for(box, k, v):
@@ -594,6 +636,14 @@ def setitem(eng, c, k, v):
         return
     if not isinstance(c, Box):
         raise EngineError('item assignment on immutable %r' % (c,))
+    if c.ty is None and c.kind == 'dict' and (c.cd is not None or _is_conc_key(k)):
+        if c.frozen:
+            raise EngineError('mutation of a frozen (old) snapshot')
+        if c.cd is None:
+            c.cd = {}
+        kk, found = _cd_find(eng, c, k)
+        c.cd[kk if found else k] = v
+        return
     if c.ty is None:
         _type_box_for(c, k, v)
     ty = c.ty
@@ -656,6 +706,10 @@ def make_iter(eng, v):
         return IterV(len(v), None, concrete=list(v))
     if isinstance(v, dict):
         return IterV(len(v), None, concrete=list(v.keys()))
+    if isinstance(v, CharSet):
+        raise EngineError('iteration over set(str)')
+    if isinstance(v, Box) and v.cd is not None:
+        return IterV(len(v.cd), None, concrete=list(v.cd.keys()))
     if isinstance(v, Box) and v.ty is None:
         return IterV(0, None, concrete=[])
     ty = type_of(v)
@@ -711,7 +765,9 @@ def b_enumerate(eng, x, start=0):
     s = eng.num(start)
     if it.concrete is not None:
         return IterV(None, None, concrete=[(eng.numval(s + i), e) for i, e in enumerate(it.concrete)])
-    return IterV(it.n, lambda i: (eng.numval(_int(s) + _int(i)), it.get(i)))
+    r = IterV(it.n, lambda i: (eng.numval(_int(s) + _int(i)), it.get(i)))
+    r.lazy_ok = True
+    return r
 
 
 def b_zip(eng, *xs):
@@ -751,6 +807,8 @@ def b_len(eng, x):
         return SV(TInt, c)
     if isinstance(x, IterV):
         return len(x.concrete) if x.concrete is not None else eng.numval(x.n)
+    if isinstance(x, Box) and x.cd is not None:
+        return len(x.cd)
     if isinstance(x, Box) and x.ty is None:
         return 0
     ty = type_of(x)
@@ -883,6 +941,10 @@ def b_int(eng, x=0, base=10):
     if isinstance(x, SV) and isinstance(x.ty, TOpt):
         eng.maybe_raise(z3.Not(x.ty.is_none(x.e)), 'TypeError')
         return b_int(eng, wrap(x.ty.t, x.ty.get(x.e)))
+    if isinstance(x, (SV, Box)) and x.ty == TCStr:
+        ok = eng.uf('is_int_literal_c', [TCStr], TBool)(to_z3(x))
+        eng.maybe_raise(ok, 'ValueError')
+        return SV(TInt, eng.uf('int_of_cstr', [TCStr], TInt)(to_z3(x)))
     raise EngineError('int() of %r' % (x,))
 
 
@@ -925,6 +987,8 @@ def b_list(eng, x=None):
     src = getattr(it, 'src', None)
     if src is not None and isinstance(type_of(src), TSeq):
         return Box(type_of(src), to_z3(src))
+    if getattr(it, 'lazy_ok', False):
+        return it      # immutable view: fine for len / iteration / reversed (mutation is out of reach)
     return iter_to_list(eng, it)
 
 
@@ -1138,12 +1202,19 @@ def list_remove(eng, b, x):
 
 
 def list_copy(eng, b):
+    if isinstance(b, Box) and b.cd is not None:
+        n = Box(None, kind='dict')
+        n.cd = dict(b.cd)
+        return n
     if isinstance(b, Box) and b.ty is None:
         return Box(None, kind=b.kind)
     return Box(type_of(b), to_z3(b))
 
 
 def dict_get(eng, d, k, default=None):
+    if isinstance(d, Box) and d.cd is not None:
+        kk, found = _cd_find(eng, d, k)
+        return d.cd[kk] if found else default
     if isinstance(d, dict):
         for kk, vv in d.items():
             if eng.eq(kk, k) is True:
@@ -1169,6 +1240,8 @@ def dict_get(eng, d, k, default=None):
 
 
 def dict_items(eng, d):
+    if isinstance(d, Box) and d.cd is not None:
+        return IterV(None, None, concrete=[(k, v) for k, v in d.cd.items()])
     if isinstance(d, dict):
         return IterV(None, None, concrete=[(k, v) for k, v in d.items()])
     if isinstance(d, Box) and d.ty is None:
@@ -1187,6 +1260,8 @@ def dict_keys(eng, d):
 
 
 def dict_values(eng, d):
+    if isinstance(d, Box) and d.cd is not None:
+        return IterV(None, None, concrete=list(d.cd.values()))
     if isinstance(d, dict):
         return IterV(None, None, concrete=list(d.values()))
     if isinstance(d, Box) and d.ty is None:
@@ -1198,6 +1273,13 @@ def dict_values(eng, d):
 
 
 def dict_pop(eng, d, k, *default):
+    if d.cd is not None:
+        kk, found = _cd_find(eng, d, k)
+        if found:
+            return d.cd.pop(kk)
+        if default:
+            return default[0]
+        eng.maybe_raise(False, 'KeyError')
     ty = d.ty
     if ty is None:
         if default:
@@ -1287,6 +1369,77 @@ def set_update(eng, s, *others):
             s.e = r.e
 
 
+def _has_ite(e):
+    stack, seen = [e], set()
+    while stack:
+        x = stack.pop()
+        if x.get_id() in seen:
+            continue
+        seen.add(x.get_id())
+        if z3.is_app(x) and x.decl().kind() == z3.Z3_OP_ITE:
+            return True
+        stack.extend(x.children())
+    return False
+
+
+def forall_pat(vs, body, pat):
+    if _has_ite(pat):
+        return z3.ForAll(vs, body)
+    return z3.ForAll(vs, body, patterns=[pat])
+
+
+def cstr_find(eng, s, c, right=False):
+    """index of the first / last occurrence of a single character, -1 if absent (Skolemised both ways)."""
+    e = to_z3(s)
+    ce = to_z3(c, TChar)
+    f = z3.Function('rfind_c' if right else 'find_c', TCStr.sort(), z3.IntSort(), z3.IntSort())
+    r = f(e, ce)
+    n = TCStr.len(e)
+    i = z3.FreshInt('fi')
+    eng.assume(z3.And(r >= -1, r < n))
+    eng.assume(z3.Implies(r >= 0, TCStr.at(e, r) == ce))
+    if right:
+        eng.assume(forall_pat([i], z3.Implies(z3.And(r < i, i < n), TCStr.at(e, i) != ce), TCStr.at(e, i)))
+    else:
+        eng.assume(forall_pat([i], z3.Implies(z3.And(0 <= i, i < z3.If(r < 0, n, r)), TCStr.at(e, i) != ce),
+                              TCStr.at(e, i)))
+    return SV(TInt, r)
+
+
+def cstr_split1(eng, s, sep, maxsplit=-1, right=False):
+    if not (isinstance(sep, str) and len(sep) == 1 and maxsplit == 1):
+        raise EngineError('split on a code-point string needs a single character separator and maxsplit 1')
+    r = cstr_find(eng, s, sep, right)
+    if not eng.branch(r.e >= 0):
+        return ConcreteList([s if isinstance(s, SV) else SV(TCStr, to_z3(s))])
+    n = b_len(eng, s)
+    return ConcreteList([getslice(eng, s, 0, r, None), getslice(eng, s, eng.numval(r.e + 1), n, None)])
+
+
+def char_pred(name):
+    def m(eng, c):
+        e = c.e
+        if name == 'isdigit':
+            return z3.And(e >= 48, e <= 57)
+        if name == 'isalpha':
+            return z3.Or(z3.And(e >= 65, e <= 90), z3.And(e >= 97, e <= 122))
+        if name == 'isspace':
+            return z3.Or(e == 32, z3.And(e >= 9, e <= 13))
+        if name == 'isupper':
+            return z3.And(e >= 65, e <= 90)
+        raise EngineError('char predicate %s' % name)
+    return m
+
+
+def cstr_all_pred(name):
+    def m(eng, s):
+        e = to_z3(s)
+        i = z3.FreshInt('ci')
+        body = eng._b(char_pred(name)(eng, SV(TChar, TCStr.at(e, i))))
+        return z3.And(TCStr.len(e) > 0, z3.ForAll([i], z3.Implies(z3.And(0 <= i, i < TCStr.len(e)), body)))
+    return m
+
+
 def str_method(name):
     def m(eng, s, *args, **kw):
         if isinstance(s, str) and all(isinstance(a, (str, int, tuple)) or a is None for a in args) \
@@ -1305,6 +1458,9 @@ def sym_str_method(eng, name, s, args, kw):
         return z3.PrefixOf(to_z3(args[0], TStr), e)
     if name == 'endswith':
         return z3.SuffixOf(to_z3(args[0], TStr), e)
+    if name == 'isdigit' and z3.is_app(e) and e.decl().kind() == z3.Z3_OP_SEQ_EXTRACT and lit(e.arg(2)) == 1:
+        code = z3.StrToCode(e)
+        return z3.And(z3.Length(e) == 1, code >= 48, code <= 57)
     if name == 'isdigit':
         # assumed: non-empty and every character is an ASCII digit (repo inputs are ASCII)
         i = z3.FreshInt('ci')
@@ -1312,6 +1468,8 @@ def sym_str_method(eng, name, s, args, kw):
                       z3.ForAll([i], z3.Implies(z3.And(0 <= i, i < z3.Length(e)),
                                                 z3.And(z3.StrToCode(z3.SubString(e, i, 1)) >= 48,
                                                        z3.StrToCode(z3.SubString(e, i, 1)) <= 57))))
+    if name in ('split', 'rsplit') and len(args) == 2 and args[1] == 1 and isinstance(args[0], str) and len(args[0]) == 1:
+        return str_split1(eng, e, args[0], name == 'rsplit')
     if name == 'split':
         return str_split(eng, e, args, kw)
     if name == 'format':
@@ -1322,6 +1480,18 @@ def sym_str_method(eng, name, s, args, kw):
                 'capitalize'):
         return SV(TStr, eng.uf('str_' + name, [TStr] * (1 + len(args)), TStr)(e, *[to_z3(a, TStr) for a in args]))
     raise EngineError('string method %s on symbolic string' % name)
+
+
+def str_split1(eng, e, sep, right):
+    """s.split(sep, 1) / s.rsplit(sep, 1) for a concrete single-character sep: [s] or [before, after]."""
+    sepv = z3.StringVal(sep)
+    if eng.spec:
+        raise EngineError('split in spec')
+    if not eng.branch(z3.Contains(e, sepv)):
+        return ConcreteList([SV(TStr, e)])
+    i = z3.LastIndexOf(e, sepv) if right else z3.IndexOf(e, sepv, 0)
+    eng.assume(z3.And(i >= 0, i < z3.Length(e)))
+    return ConcreteList([SV(TStr, z3.SubString(e, 0, i)), SV(TStr, z3.SubString(e, i + 1, z3.Length(e) - i - 1))])
 
 
 def str_split(eng, e, args, kw):
@@ -1490,6 +1660,10 @@ def install(eng):
     reg('ite', lambda e, c, a, b: e.ite(e.truth(c), a, b))
     reg('dom', lambda e, m: Box(TSet(type_of(m).k), type_of(m).dom(to_z3(m))))
     reg('is_none', lambda e, x: e.eq(x, None))
+    reg('int_of_str', lambda e, x: wrap(TInt, e.uf('int_of_cstr', [TCStr], TInt)(to_z3(x, TCStr))) if type_of(x) == TCStr
+        else wrap(TInt, e.uf('int_of_str', [TStr], TInt)(to_z3(x, TStr))))
+    reg('is_int_literal', lambda e, x: e.uf('is_int_literal_c', [TCStr], TBool)(to_z3(x, TCStr)) if type_of(x) == TCStr
+        else e.uf('is_int_literal', [TStr], TBool)(to_z3(x, TStr)))
 
     def prove(e, cond, name='assert'):
         sp = e.spec
@@ -1539,6 +1713,14 @@ def install(eng):
     M[('set', 'remove')] = set_remove
     M[('set', 'update')] = set_update
     M[('set', 'copy')] = list_copy
+    M[('cstr', 'find')] = lambda e, s, c: cstr_find(e, s, c, False)
+    M[('cstr', 'rfind')] = lambda e, s, c: cstr_find(e, s, c, True)
+    M[('cstr', 'split')] = lambda e, s, sep, maxsplit=-1: cstr_split1(e, s, sep, maxsplit, False)
+    M[('cstr', 'rsplit')] = lambda e, s, sep, maxsplit=-1: cstr_split1(e, s, sep, maxsplit, True)
+    for n in ('isdigit', 'isalpha', 'isspace', 'isupper'):
+        M[('Char', n)] = char_pred(n)
+        M[('cstr', n)] = cstr_all_pred(n)
+    B['TCStr'], B['TChar'] = TCStr, TChar
     for n in ('split', 'rsplit', 'strip', 'lstrip', 'rstrip', 'startswith', 'endswith', 'isdigit', 'join', 'format',
               'find', 'lower', 'upper', 'replace', 'rjust', 'ljust', 'isalpha', 'title', 'capitalize', 'count',
               'index', 'rfind', 'partition', 'rpartition', 'zfill', 'isspace', 'isupper', 'islower'):
